@@ -247,6 +247,36 @@ type Episode struct {
 
 const episodePtsCap = 2500000
 
+var fnKinds = []string{"VerifyBatch", "Verify", "VerifyOpts", "Sign", "PrivSign", "GenerateKey", "NewKeyFromSeed", "X25519", "ScalarBaseMult", "ScalarMult", "EdPubToX", "EdPrivToX", "Public", "PubEqual"}
+
+// genFirstUse: the first thing this process does with the library is that
+// 2..4 clients call the same kind of function at the same time, in lockstep.
+// Lazily initialised state (a table built on first use, a "checked" flag, a
+// sync.Once forgotten) is only ever exposed in this window.
+func genFirstUse(seed uint64, worker, idx, n int, pool []*Op) *Episode {
+	r := NewRng(seed, lbl("firstuse"), uint64(n))
+	fn := fnKinds[n%len(fnKinds)]
+	var cand []int
+	for i, op := range pool {
+		if op.Fn == fn && len(op.Entries) <= 70 {
+			cand = append(cand, i)
+		}
+	}
+	if len(cand) == 0 {
+		return nil
+	}
+	ep := &Episode{Idx: idx, Family: "twins", SSeed: r.U64(), Slice: []int64{64, 128, 256, 512}[r.Intn(4)]}
+	T := 2 + r.Intn(3)
+	list := []int{cand[(n/len(fnKinds))%len(cand)]}
+	if r.Chance(1, 2) {
+		list = append(list, cand[r.Intn(len(cand))])
+	}
+	for c := 0; c < T; c++ {
+		ep.Clients = append(ep.Clients, append([]int{}, list...))
+	}
+	return ep
+}
+
 func genEpisode(seed uint64, worker, idx int, pool []*Op, refs []Ref, force string) *Episode {
 	r := NewRng(seed, lbl("episode"), uint64(worker), uint64(idx))
 	ep := &Episode{Idx: idx, SSeed: r.U64()}
@@ -359,6 +389,7 @@ type concArgs struct {
 	trace    bool
 	family   string
 	dumpep   bool
+	firstuse int
 }
 
 func loadRefs(path string, n int) []Ref {
@@ -608,7 +639,7 @@ func runEpisode(ep *Episode, pool []*Op, refs []Ref, st *ConcStats, a *concArgs)
 			if len(blockedSet) >= live && blockedStreak > 4*live+8 {
 				// every live client is spinning on a lock nobody can release
 				v := &ViolationRec{T: "violation", Prop: "C15", CheckID: "conc-deadlock", Engine: "conc",
-					Msg: fmt.Sprintf("deadlock: all %d live clients are blocked on locks held by each other", live)}
+					Msg: fmt.Sprintf("deadlock: all %d live clients are blocked on locks or channel slots that none of them can release", live)}
 				ep2 := *ep
 				ep2.Grants = grants
 				v.Case = &Case{Prop: "C15", Check: "episode"}
@@ -765,6 +796,12 @@ func concMain(a concArgs) int {
 			ep = fixed
 		} else {
 			ep = genEpisode(a.seed, a.worker, idx, pool, refs, a.family)
+			if a.firstuse >= 0 && idx == a.from && a.family == "" {
+				if fu := genFirstUse(a.seed, a.worker, idx, a.firstuse, pool); fu != nil {
+					ep = fu
+					st.Families["first-use-twins"]++
+				}
+			}
 		}
 		if a.dumpep {
 			ep2 := *ep
